@@ -65,6 +65,13 @@ DecInit ==
    mag |-> 0, neg |-> FALSE, ovf |-> FALSE,
    segs |-> <<>>, wf |-> TRUE]
 
+(* additions that cannot leave TLC's integer range: a sum outside           *)
+(* [-MaxI, MaxI] is reported as out of range (value 0, wf FALSE)            *)
+MaxI == 2147483647
+AddOK(a, b) ==
+  IF b >= 0 THEN a <= MaxI - b ELSE a >= (0 - MaxI) - b
+Add(a, b) == IF AddOK(a, b) THEN a + b ELSE 0
+
 EndSegment(st) ==
   LET f == st.fields
       n == Len(f)
@@ -74,23 +81,25 @@ EndSegment(st) ==
   IN IF pending THEN [base EXCEPT !.wf = FALSE]
      ELSE IF n = 0 THEN base
      ELSE IF n = 1 THEN
-       LET gc == st.gc + f[1]
+       LET gc == Add(st.gc, f[1])
        IN [base EXCEPT !.gc = gc,
              !.segs = Append(st.segs, [gl |-> st.line, gc |-> gc, si |-> -1,
                                        ol |-> 0, oc |-> 0, ni |-> -1]),
-             !.wf = st.wf /\ gc >= 0]
+             !.wf = st.wf /\ gc >= 0 /\ AddOK(st.gc, f[1])]
      ELSE IF n = 4 \/ n = 5 THEN
-       LET gc == st.gc + f[1]
-           si == st.si + f[2]
-           ol == st.ol + f[3]
-           oc == st.oc + f[4]
-           ni == IF n = 5 THEN st.ni + f[5] ELSE st.ni
+       LET gc == Add(st.gc, f[1])
+           si == Add(st.si, f[2])
+           ol == Add(st.ol, f[3])
+           oc == Add(st.oc, f[4])
+           ni == IF n = 5 THEN Add(st.ni, f[5]) ELSE st.ni
        IN [base EXCEPT !.gc = gc, !.si = si, !.ol = ol, !.oc = oc, !.ni = ni,
              !.segs = Append(st.segs,
                         [gl |-> st.line, gc |-> gc, si |-> si, ol |-> ol,
                          oc |-> oc, ni |-> IF n = 5 THEN ni ELSE -1]),
              !.wf = st.wf /\ gc >= 0 /\ si >= 0 /\ ol >= 1 /\ oc >= 0
-                          /\ ni >= 0]
+                          /\ ni >= 0 /\ AddOK(st.gc, f[1]) /\ AddOK(st.si, f[2])
+                          /\ AddOK(st.ol, f[3]) /\ AddOK(st.oc, f[4])
+                          /\ (n = 5 => AddOK(st.ni, f[5]))]
      ELSE [base EXCEPT !.wf = FALSE]
 
 DecStep(st, c) ==
